@@ -55,6 +55,20 @@ Proof.
 Qed.
 Print Assumptions C14_created_from_config_only.
 
+(* A record created from a configuration is found again - same object, storage untouched - by
+   any configuration made of identifiers of the creating one, whichever of its services
+   (enabled or disabled, any protocol) carried them. *)
+Theorem C14_created_found_by_own_identifiers : forall c c2 st h st',
+  handles_ok st -> NoDup (map sproto c) ->
+  get_settings schema c st = (Ok h, st') -> nth_error (heap st) h = None ->
+  all_identifiers c2 <> [] -> (forall i, In i (all_identifiers c2) -> In i (all_identifiers c)) ->
+  get_settings schema c2 st' = (Ok h, st').
+Proof.
+  intros c c2 st h st' HO ND. apply created_found_by_own_identifiers; try assumption.
+  apply (ok_present schema (schema_okb_sound schema C14_schema_ok)).
+Qed.
+Print Assumptions C14_created_found_by_own_identifiers.
+
 (* The same object for ANY configuration that shares an identifier with the stored record,
    provided no record stored before it shares an identifier with that configuration as well
    (the reading of "shares at least one identifier with it" fixed in DESIGN.md). *)
@@ -89,7 +103,7 @@ Theorem C14_apply_only_own : forall (sch : Model.schema) k c st h c' st',
   step sch k (Scan c) st = (OApplied h c', st') ->
   exists r, nth_error (heap st') h = Some r
     /\ fst (get_settings sch c st) = Ok h
-    /\ Forall2 (fun s s' => sproto s' = sproto s /\ sid s' = sid s
+    /\ Forall2 (fun s s' => sproto s' = sproto s /\ sid s' = sid s /\ senabled s' = senabled s
                   /\ own_or_stored r "credentials" (sproto s) (screds s) (screds s')
                   /\ own_or_stored r "password" (sproto s) (spw s) (spw s')) c c'.
 Proof.
@@ -117,7 +131,7 @@ Print Assumptions C14_load_dump_id.
    plants the key, the dump writes it, load drops it.
    Known finding C14:roundtrip:undeclared-key-dropped. *)
 Definition cfg_undeclared_pw (p : proto) : cfg :=
-  [{| sproto := p; sid := Some [88]%N; screds := None; spw := Some [112; 119]%N |}].
+  [{| sproto := p; sid := Some [88]%N; screds := None; spw := Some [112; 119]%N; senabled := true |}].
 
 Theorem C14_roundtrip_refuted_undeclared_key : forall p,
   undeclared_pw = Some p ->
@@ -234,9 +248,9 @@ Print Assumptions C14_failed_save_then_retry.
    with a non-ASCII character, an assignment, a save and a reload.  The hypotheses of the
    theorems above hold for it, it is not trivial (two records, changed flips), and the
    lookup hypothesis of C14_lookup_stable is met by a configuration of a different shape. *)
-Definition ex_a : cfg := [{| sproto := MRP; sid := Some [65]%N; screds := Some [99; 252]%N; spw := None |};
-                          {| sproto := AirPlay; sid := Some [66]%N; screds := None; spw := Some [112]%N |}].
-Definition ex_b : cfg := [{| sproto := RAOP; sid := Some [67]%N; screds := None; spw := None |}].
+Definition ex_a : cfg := [{| sproto := MRP; sid := Some [65]%N; screds := Some [99; 252]%N; spw := None; senabled := false |};
+                          {| sproto := AirPlay; sid := Some [66]%N; screds := None; spw := Some [112]%N; senabled := true |}].
+Definition ex_b : cfg := [{| sproto := RAOP; sid := Some [67]%N; screds := None; spw := None; senabled := true |}].
 Definition ex_ops : list op :=
   [Get ex_a; Get ex_b; SetF 1 "raop" "credentials" (VStr [120]%N); Save;
    SetF 0 "info" "name" (VStr []); SaveFault; Changed].
@@ -256,7 +270,7 @@ Example C14_ex_run :
   let '(xs, st) := run schema File ex_ops (fresh [] None) in
   xs = [OHandle 0; OHandle 1; OUnit; OUnit; OUnit; ORaise Fault; OBool true]
   /\ cur st = [0; 1]
-  /\ fst (get_settings schema [{| sproto := Companion; sid := Some [66]%N; screds := None; spw := None |}] st) = Ok 0
+  /\ fst (get_settings schema [{| sproto := Companion; sid := Some [66]%N; screds := None; spw := None; senabled := true |}] st) = Ok 0
   /\ contents (reload schema (save schema File st)) = contents st
   /\ List.length (contents st) = 2.
 Proof. vm_compute. repeat split. Qed.
